@@ -114,6 +114,18 @@ def model(cfg, ctx, group, args):
         cls.add('amount>=BITS' + ('' if cfg.pow2 else ' (width not a power of two)'))
         if s >= 2 * b:
             cls.add('amount>=2*BITS')
+    # the same shift through the operators with other primitive amount types (the amount s itself is always a u32 here)
+    for t, hi in (('i32', 2 ** 31 - 1), ('usize', 2 ** 64 - 1), ('i64', 2 ** 63 - 1), ('u128', 2 ** 128 - 1), ('u8', 255), ('i16', 2 ** 15 - 1)):
+        for nm in ('shl', 'shr'):
+            e = exp[nm]
+            if s > hi:
+                exp['%s_%s' % (nm, t)] = None
+            elif e == PANIC:
+                exp['%s_%s' % (nm, t)] = PANIC
+            elif e is NOPANIC:
+                exp['%s_%s' % (nm, t)] = NOPANIC
+            else:
+                exp['%s_%s' % (nm, t)] = Some(e)
     p = cfg.pat(a)
     exp['rotate_left'] = cfg.val(rotl(cfg, p, s))
     exp['rotate_right'] = cfg.val(rotl(cfg, p, -s))
